@@ -42,11 +42,18 @@ def client_message(case, port=PORT_PLACEHOLDER, size=None, path=None):
 
 # ------------------------------------------------------------------ case space
 
+def sizes_B(ctx):
+    """Boundary set B: quick up to 64 KB+1; thorough up to 512 KB+1 plus 1 MiB+1 and 4 MiB+3."""
+    if ctx.quick:
+        return br.boundary_sizes(ctx.tree, 65536)
+    return br.boundary_sizes(ctx.tree, 4 << 20, extra=((1 << 20) + 1, (4 << 20) + 3))
+
+
 def all_cases(ctx):
     T = not ctx.quick
     k = br.tree_constants(ctx.tree)
     limit = (4 << 20) if T else 65536
-    B = br.boundary_sizes(ctx.tree, limit)
+    B = sizes_B(ctx)
     bnd = br.boundaries(ctx.tree, limit)
     cases = []
 
@@ -67,7 +74,7 @@ def all_cases(ctx):
         return len(h), len(h) + len(p)
 
     FR_SMALL = [('cl', '-'), ('chunked', 'one'), ('chunked', 'b1'), ('chunked', 'exttrailer')]
-    # F1 split: small requests, every 2-piece (T: every 3-piece for one message per framing) split of the client's stream
+    # F1 split: small requests, every 2-piece (T: every 3-piece split of one message per framing) split of the client's stream
     for fr, ck in FR_SMALL:
         for size in ((0, 1, 7) if not T else (0, 1, 2, 7)):
             for exp in ('none', 'nowait'):
@@ -81,7 +88,7 @@ def all_cases(ctx):
         for fr, ck in (('cl', '-'), ('chunked', 'halves')):
             base = {'fr': fr, 'ck': ck, 'size': 3, 'm': 'PUT'}
             hl, total = total_of(base)
-            for a in range(max(1, hl - 24), total):          # both cuts in the tail of the head and the body
+            for a in range(1, total):
                 for b in range(a + 1, total):
                     add('split3', seg=[a, b], **base)
     # F2 prefix: small requests, the client goes away after every proper prefix of its stream
@@ -352,7 +359,7 @@ def run_case(w, case):
     if cut is None and violation is None and not t.body_withheld:
         if not (r.complete and not r.error and r.status == 200 and r.body == b'ok'):
             violation = 'the origin answered 200 "ok" to the complete request but the client got %r' % t.client_bytes[:200]
-    outcome = cls + ('' if case['exp'] == 'none' else (' 100=%s' % ('relayed' if t.got100 else ('sent-not-relayed' if t.sent100 else 'not-asked'))))
+    outcome = cls + ('' if case['exp'] == 'none' else (' 100=%s' % ('relayed' if t.got100 else ('sent-not-relayed' if t.sent100 else 'not-sent'))))
     tr = 'O:%s body=%d:%s\nC:%s' % (
         ' || '.join(br.mask_head(o['raw'][:o['raw'].find(b'\r\n\r\n') + 4 if b'\r\n\r\n' in o['raw'] else len(o['raw'])]) for o in t.oconns),
         sum(len(o['raw']) for o in t.oconns), br.sha(b''.join(o['raw'] for o in t.oconns)) if case['fr'] == 'cl' else br.sha(httpref.parse_request(b''.join(o['raw'] for o in t.oconns)).body),
@@ -405,7 +412,7 @@ def run(ctx):
     cov = {'evaluations': r['evaluations'], 'distinct_nontrivial': forwarded, 'rule': RULE, 'samples': samples,
            'outcome_classes': oc, 'exhaustive': done, 'kicks': r['kicks'], 'determinism_replays': r['replays'],
            'cases_total': len(cases), 'cases_per_family': fams, 'complete_relays': complete, 'visible_truncations': truncated,
-           'continue_relayed': relayed100, 'sizes_B': br.boundary_sizes(ctx.tree, (4 << 20) if not ctx.quick else 65536)}
+           'continue_relayed': relayed100, 'sizes_B': sizes_B(ctx)}
     return Result(LEVEL, cov, vio, ASSUME)
 
 
